@@ -47,6 +47,14 @@ func tText(c context, s []byte) (context, int) {
 			end, i = true, i+1
 		}
 		j, e := eatTagName(s, i)
+		if j != i && !end && j < len(s) && s[j] != '=' && bytes.IndexByte(tagEndSeparators, s[j]) == -1 {
+			// An HTML parser reads on up to white space, "/" or ">" ("=" is refused by tTag): the element is not
+			// the one named by s[i:j], which would select the wrong content policy.
+			return context{
+				state: stateError,
+				err:   errorf(ErrBadHTML, nil, 0, "unsupported character %q in the tag name that starts with %q", s[j:j+1], s[i:j]),
+			}, len(s)
+		}
 		if j != i {
 			// We've found an HTML tag.
 			ret := context{state: stateTag}
